@@ -11,7 +11,7 @@
 (*             placing every node once - RoundTrip holds for every order.  *)
 (* Parsing nests back: every nesting pair becomes a contains edge.         *)
 (***************************************************************************)
-EXTENDS Integers, Sequences, FiniteSets, TLC
+EXTENDS Integers, Sequences, FiniteSets, TLC, Json
 CONSTANTS N, Algo
 Nodes == 0..N
 RECURSIVE Up(_, _, _)
@@ -42,4 +42,6 @@ Nest == IF Algo = "onepass" THEN NestOnePass ELSE NestTwoPhase
 \* the parser turns every nesting pair into a contains edge: the tree must come back, whatever the stored order
 RoundTrip == stage = 1 => Nest = EdgesOf(p)
 EachOnce == stage = 1 => {e[2] : e \in Nest} = 1..N
+\* export of every (tree, stored edge order) for replay on the real serializer / parser pair (TrCDX_export*.cfg)
+ExportTree == stage = 1 => PrintT(<<"SCRIPT", ToJson(<<[op |-> "Tree", n |-> N, order |-> order]>>)>>)
 =============================================================================
